@@ -311,8 +311,9 @@ class AdwinProcess:
 
     @staticmethod
     def _get_dict_item_case_insensitive(key: str, dict_items: Dict[str, Any]):
+        # Compare upper-case names, like the duplicate checks in the ADbasic parser do.
         for dict_item_key in dict_items.keys():
-            if key.lower() == dict_item_key.lower():
+            if key.upper() == dict_item_key.upper():
                 return dict_items[dict_item_key]
         raise KeyError("Key not found!")
 
